@@ -19,6 +19,7 @@ macro_rules! dispatch {
             "C32" => { let tw = ledger::transport::Transport { id: "C32" }; let $w = &tw; $body }
             "C33" => { let tw = ledger::transport::Transport { id: "C33" }; let $w = &tw; $body }
             "C39" => { let $w = &ledger::deposits::C39; $body }
+            "C40" => { let $w = &ledger::accessctl::C40; $body }
             "C41" => { let $w = &ledger::pools::C41; $body }
             "C42" => { let $w = &ledger::validators::C42; $body }
             "C43" => { let $w = &ledger::nfids::C43; $body }
@@ -43,7 +44,7 @@ macro_rules! dispatch {
     };
 }
 
-pub const ALL: &[&str] = &["C01", "C02", "C03", "C04", "C05", "C06", "C07", "C09", "C10", "C11", "C12", "C13", "C14", "C15", "C17", "C18", "C19", "C32", "C33", "C36", "C39", "C41", "C42", "C43", "C44", "C51"];
+pub const ALL: &[&str] = &["C01", "C02", "C03", "C04", "C05", "C06", "C07", "C09", "C10", "C11", "C12", "C13", "C14", "C15", "C17", "C18", "C19", "C32", "C33", "C36", "C39", "C40", "C41", "C42", "C43", "C44", "C51"];
 
 fn usage() -> i32 {
     eprintln!("usage: verif-sim check <ID> [quick|thorough] | replay <file> | selftest [runs] | list");
